@@ -42,6 +42,12 @@ def gen_cases(tier, seed):
                 shells, classes = bases.window_pair(rng, la, lb)
             cases.append({"shells": shells, "classes": classes + ["l:%d,%d" % (la, lb), "nsh:%d" % nsh],
                           "cost": sum((2 + a) * (2 + b) * len(x["e"]) * len(y["e"]) for x, a in zip(shells, ls) for y, b in zip(shells, ls))})
+    # displaced copies: nearly coincident centres, also far from the origin
+    for k, (la, lb) in enumerate(itertools.product(range(4), repeat=2)):
+        for rep in range(2 if tier == "quick" else 8):
+            rng = bases.rng_for("C02", seed, tier, "displaced", la, lb, rep)
+            shells, classes = bases.displaced_pair(rng, la, lb)
+            cases.append({"shells": shells, "classes": classes + ["l:%d,%d" % (la, lb), "nsh:2"], "cost": 30})
     # screening-window sweep: high-l pairs at separations where exp(-mu R^2) runs through 1e-9 .. 1e-17
     for (la, lb) in itertools.product((4, 5) if tier == "quick" else (3, 4, 5), repeat=2):
         for t in range(20, 40, 2):
